@@ -1,6 +1,7 @@
 package sync
 
 import (
+	"bytes"
 	"context"
 	"encoding/hex"
 	"errors"
@@ -120,6 +121,15 @@ func (syncService *SyncService[H]) Store() *goheaderstore.Store[H] {
 func (syncService *SyncService[H]) initStoreAndStartSyncer(ctx context.Context, initial H) error {
 	if initial.IsZero() {
 		return errors.New("failed to initialize the store and start syncer")
+	}
+	// The initial header comes from a peer. Everything received later is only verified against the header
+	// before it, so this is the one place where the P2P header store is tied to genesis: without the check a
+	// peer could seed the store with a self-signed chain of another proposer.
+	if sh, ok := any(initial).(*types.SignedHeader); ok {
+		if !bytes.Equal(sh.ProposerAddress, syncService.genesis.ProposerAddress) {
+			return fmt.Errorf("initial header received from peers is not signed by the genesis proposer: proposer address %X, expected %X",
+				sh.ProposerAddress, syncService.genesis.ProposerAddress)
+		}
 	}
 	if err := syncService.store.Init(ctx, initial); err != nil {
 		return err
